@@ -5,7 +5,7 @@
 //           <=3 routes per state (event|any, target incl. terminal, guard in {none,true,false,flip-flop}),
 //           optional per-state handlers (one for a specific event, one for "any"; return -1 or an existing
 //           target), optional sub-machine per state (tree, nesting depth <= Dmax), optional explicit
-//           setInitState(1) (states then registered in descending order), and two one-state machines whose
+//           setInitState(1) (states then registered in descending order), and the one-state machines whose
 //           initial state does not exist (setInitState(7); setInitState(0) without a state 0): start() must
 //           fail, as top machine and as sub-machine.  weight = #states + #routes + #guards + #handlers +
 //           [explicit init] + [terminal defined] + weight of every sub-machine.  Canonical form: all states
@@ -455,6 +455,7 @@ static EvalOut evaluate(int top, const std::vector<Op> &hist) {
   for (size_t i = 0; i < hist.size() + g_epilogue; i++) {
     bool epi = i >= hist.size(); if (i == hist.size()) canon();
     const Op &op = epi ? EPILOGUE[i - hist.size()] : hist[i]; int r1 = -1, r2 = -1; std::string defwhat;
+    bool was_running[16]; for (size_t k = 0; k < nn; k++) was_running[k] = REF.running[k];
     G.tr.clear(); G.reent = op.reent; G.in_restart = op.call == RESTART;
     switch (op.call) { case START: r1 = m->start(); break; case RUN1: r1 = RUN(m, 1); break; case RUN2: r1 = RUN(m, 2); break; case STOP: m->stop(); break; case RESTART: r1 = m->restart(); break;
                        case DEFBAD: r1 = 0; for (size_t k = 0; k < nn && defwhat.empty(); k++) { defwhat = bad_defs(k); if (!defwhat.empty()) { r1 = 1; defwhat += std::string("-on-a-") + (REF.running[k] ? "running" : "stopped") + "-machine"; } } break; }
@@ -475,7 +476,7 @@ static EvalOut evaluate(int top, const std::vector<Op> &hist) {
     else if (!defwhat.empty()) sig = "rejected-definition-call-accepted-" + defwhat;
     else if (!same || !G.balance_viol.empty()) {
       bool sub_left = false;     // a sub-machine the reference has stopped is still running / was not exited
-      for (size_t k = 1; k < nn; k++) if (G.sm[k]->isRunning() && !REF.running[k]) sub_left = true;
+      for (size_t k = 1; k < nn; k++) if (G.sm[k]->isRunning() && !REF.running[k] && was_running[k]) sub_left = true;
       if (count_sub(t2, 'x') > count_sub(t1, 'x')) sub_left = true;                               // its exit action is missing
       if (op.call == RESTART && count_sub(t2, 'n') > count_sub(t1, 'n')) sub_left = true;          // or it was not started again because it never stopped
       if ((op.call == STOP || op.call == RESTART) && sub_left) sig = std::string(CALLN[op.call]) + "-leaves-active-submachine-running";
